@@ -25,6 +25,10 @@ pub fn run(ctx: &Ctx, walk: bool) -> i32 {
             if !filter(&fam.name) {
                 continue;
             }
+            // the 400 KB base is walked (rendered) only in the thorough tier; the quick tier loads it (C04) and measures it (C12)
+            if walk && !thorough && fam.name.ends_with("-big") {
+                continue;
+            }
             let fname = if *prof == "checked" { fam.name.clone() } else { format!("{}@{}", fam.name, prof) };
             if !ctx.wants_family(&fname) {
                 continue;
@@ -47,7 +51,7 @@ pub fn run(ctx: &Ctx, walk: bool) -> i32 {
                     let i = indices[k];
                     let sig = worker::status_sig(&r);
                     ctx.eval(if walk && r.status == Status::Ok { 200 } else { 1 });
-                    ctx.outcome(hash64(&(&sig, r.digest)));
+                    ctx.outcome(hash64(&(&fname, &sig, r.digest)));
                     match r.status {
                         Status::Ok | Status::WalkPanic => {
                             loaded.fetch_add(1, Relaxed);
